@@ -103,7 +103,6 @@ func runC07(c *Ctx) {
 			continue
 		}
 		type leg struct {
-			mc       *ssa.MakeClosure
 			fn       *ssa.Function
 			dst, src ssa.Value
 			closes   ssa.Value
@@ -116,25 +115,56 @@ func runC07(c *Ctx) {
 			if !ok {
 				return
 			}
-			mc, ok := g.Call.Value.(*ssa.MakeClosure)
-			if !ok {
+			var cf *ssa.Function
+			var resolve func(v ssa.Value) ssa.Value
+			if mc, ok := g.Call.Value.(*ssa.MakeClosure); ok {
+				cf = mc.Fn.(*ssa.Function)
+				resolve = func(v ssa.Value) ssa.Value { return bindingOf(v, cf, mc) }
+			} else if sc := g.Call.StaticCallee(); sc != nil && inModule(sc) && len(sc.Blocks) > 0 {
+				// go p.pipe(wg, dst, src, ...): parameters map to the go statement's arguments
+				cf = sc
+				resolve = func(v ssa.Value) ssa.Value {
+					v = strip(v)
+					if u, ok := v.(*ssa.UnOp); ok && u.Op == token.MUL {
+						if al, ok := u.X.(*ssa.Alloc); ok {
+							if sv, _ := singleStore(al); sv != nil {
+								v = strip(sv)
+							}
+						}
+					}
+					pv, ok := v.(*ssa.Parameter)
+					if !ok {
+						return nil
+					}
+					for k, pp := range sc.Params {
+						if pp == pv && k < len(g.Call.Args) {
+							a := strip(g.Call.Args[k])
+							// normalise: a load of the caller's variable stands for that variable
+							if u, ok := a.(*ssa.UnOp); ok && u.Op == token.MUL {
+								return u.X
+							}
+							return a
+						}
+					}
+					return nil
+				}
+			} else {
 				return
 			}
-			cf := mc.Fn.(*ssa.Function)
-			l := leg{mc: mc, fn: cf, goInstr: g}
+			l := leg{fn: cf, goInstr: g}
 			allInstrs(cf, func(j ssa.Instruction) {
 				switch x := j.(type) {
 				case *ssa.Call:
 					if commonName(&x.Call) == "io.Copy" {
-						l.dst = bindingOf(x.Call.Args[0], cf, mc)
-						l.src = bindingOf(x.Call.Args[1], cf, mc)
+						l.dst = resolve(x.Call.Args[0])
+						l.src = resolve(x.Call.Args[1])
 					}
 				case *ssa.Defer:
 					if x.Call.IsInvoke() && x.Call.Method.Name() == "Close" {
-						l.closes = bindingOf(x.Call.Value, cf, mc)
+						l.closes = resolve(x.Call.Value)
 					}
 					if strings.HasSuffix(commonName(&x.Call), "sync.WaitGroup).Done") {
-						l.done = bindingOf(x.Call.Args[0], cf, mc)
+						l.done = resolve(x.Call.Args[0])
 						if l.done == nil {
 							l.done = x.Call.Args[0]
 						}
@@ -856,27 +886,52 @@ func c19R3(c *Ctx) {
 		c.analysed(fnName(shed))
 		fs := computeFacts(shed)
 		nP := ssa.Value(shed.Params[1])
-		// loop exit under len(shedding) >= n
-		okStop := false
-		for _, b := range shed.Blocks {
-			if iff, ok := b.Instrs[len(b.Instrs)-1].(*ssa.If); ok {
-				f := mkFact(iff.Cond, true)
-				if cmpFact(f, token.GEQ, func(v ssa.Value) bool {
-					cl, ok := v.(*ssa.Call)
-					if !ok {
-						return false
-					}
-					bi, ok := cl.Call.Value.(*ssa.Builtin)
-					return ok && bi.Name() == "len"
-				}, func(v ssa.Value) bool { return v == nP }) {
-					// the true edge leaves the collecting loop
-					hdr := loopHeader(b)
-					if hdr != nil && !(hdr.Dominates(b.Succs[0]) && reachesBlock(b.Succs[0], hdr)) {
-						okStop = true
+		// loop exit under len(collected) >= n, here or in a helper that is given n
+		var stopsAtN func(fn *ssa.Function, nV ssa.Value, depth int) bool
+		stopsAtN = func(fn *ssa.Function, nV ssa.Value, depth int) bool {
+			for _, b := range fn.Blocks {
+				if len(b.Instrs) == 0 {
+					continue
+				}
+				if iff, ok := b.Instrs[len(b.Instrs)-1].(*ssa.If); ok {
+					f := mkFact(iff.Cond, true)
+					if cmpFact(f, token.GEQ, func(v ssa.Value) bool {
+						cl, ok := v.(*ssa.Call)
+						if !ok {
+							return false
+						}
+						bi, ok := cl.Call.Value.(*ssa.Builtin)
+						return ok && bi.Name() == "len"
+					}, func(v ssa.Value) bool { return v == nV }) {
+						hdr := loopHeader(b)
+						if hdr != nil && !(hdr.Dominates(b.Succs[0]) && reachesBlock(b.Succs[0], hdr)) {
+							return true
+						}
 					}
 				}
 			}
+			if depth < 2 {
+				found := false
+				allInstrs(fn, func(i ssa.Instruction) {
+					cl, ok := i.(*ssa.Call)
+					if !ok {
+						return
+					}
+					cal := cl.Call.StaticCallee()
+					if cal == nil || !inModule(cal) || len(cal.Blocks) == 0 {
+						return
+					}
+					for k, a := range cl.Call.Args {
+						if a == nV && k < len(cal.Params) && stopsAtN(cal, cal.Params[k], depth+1) {
+							found = true
+						}
+					}
+				})
+				return found
+			}
+			return false
 		}
+		okStop := stopsAtN(shed, nP, 0)
 		c.check(okStop, "C19.R3", fnName(shed)+"/stops-at-n", shed.Pos(), "collecting stops as soon as len(shedding) >= n", "the collection loop does not stop exactly when n sessions have been collected")
 		li := computeLocks(p)
 		sessMu := p.Field(upPkg, "Server", "sessionsMu")
